@@ -59,6 +59,7 @@ class Monitor:
             for sid in T.sims
         }
         # asynchronous requests (C16)
+        self.steps_in = []       # (sid, tt, inputs, event index) judged in finish()
         self.async_pending = collections.defaultdict(dict)   # dst sid -> {(attr, src_full): val}
         self.async_delivered = set()
         self.finalized = collections.Counter()
@@ -221,50 +222,11 @@ class Monitor:
 
     # ------------------------------------------------------------------------
     def check_inputs(self, sid, tt, inputs):
-        T = self.T
+        """C16 part immediately; the data-flow part (C03) is judged in finish() against the
+        producers' *complete* output histories: the verdict is then a function of the
+        per-simulator sequences alone, and an input that was read too early (before the value
+        due for it had been produced) is seen as the wrong value that it is."""
         got = json.loads(inputs)
-        exp, expi = {}, {}
-        for ci, c in enumerate(T.conns):
-            if c["dst"] != sid or not c.get("sattr"):
-                continue
-            p = c["src"]
-            key = f"{p}.e"
-            slot = exp.setdefault("e", {}).setdefault(c["dattr"], {})
-            sloti = expi.setdefault("e", {}).setdefault(c["dattr"], {})
-            if T.is_persistent(c):
-                val = NONE
-                vali = NONE
-                best = None
-                for (pk, ptt, ott, data) in self.outs[p]:
-                    if "po" in data.get("e", {}):
-                        a = T.arrive(c, ott)
-                        if a <= tt:
-                            val = data["e"]["po"]
-                        if a[0] <= tt[0] and (best is None or a[0] >= best):
-                            best = a[0]
-                            vali = data["e"]["po"]
-                if val is NONE and c.get("init"):
-                    val = init_token(c)
-                if vali is NONE and c.get("init"):
-                    vali = init_token(c)
-                _put(slot, key, val)
-                _put(sloti, key, vali)
-            else:
-                due = [(pk, data["e"]["eo"]) for (pk, ptt, ott, data) in self.outs[p]
-                       if "eo" in data.get("e", {}) and T.arrive(c, ott) <= tt
-                       and pk not in self.consumed[ci]]
-                if due:
-                    for pk, _ in due:
-                        self.consumed[ci].add(pk)
-                    _put(slot, key, due[-1][1])
-                duei = [(pk, data["e"]["eo"]) for (pk, ptt, ott, data) in self.outs[p]
-                        if "eo" in data.get("e", {}) and T.arrive(c, ott)[0] <= tt[0]
-                        and pk not in self.consumed_i[ci]]
-                if duei:
-                    for pk, _ in duei:
-                        self.consumed_i[ci].add(pk)
-                    _put(sloti, key, duei[-1][1])
-        # values that arrived through set_data are judged by the C16 monitor
         gset = {}
         for e, av in list(got.items()):
             for a, kv in list(av.items()):
@@ -273,15 +235,90 @@ class Monitor:
                         gset[(a, kf)] = v
                         del kv[kf]
         self.check_async_inputs(sid, tt, gset)
-        g2, e2 = _reconcile(got, exp)
-        if g2 != e2:
-            gi, ei = _reconcile(got, expi)
-            cls = "integer-time-visibility" if gi == ei else None
-            if cls is None and self.cfg.get("cache", True) and self._only_foreign_init(sid, g2, e2):
-                cls = "initial-data-shared-via-cache"
-            self.add("C03", "wrong-inputs",
-                     f"{sid}@{tt} inputs {_short(g2)} expected {_short(e2)}",
-                     cls=cls, sim=sid, got=g2, exp=e2)
+        self.steps_in.append((sid, tt, got, self.n))
+
+    def judge_inputs(self):
+        T = self.T
+        consumed = collections.defaultdict(set)
+        delivered = collections.defaultdict(list)    # (sid, attr, key) -> [(tt, value)]
+        for (sid, tt, got, at) in self.steps_in:
+            exp = {}
+            for ci, c in enumerate(T.conns):
+                if c["dst"] != sid or not c.get("sattr"):
+                    continue
+                p = c["src"]
+                key = f"{p}.e"
+                slot = exp.setdefault("e", {}).setdefault(c["dattr"], {})
+                if T.is_persistent(c):
+                    val = NONE
+                    for (pk, ptt, ott, data) in self.outs[p]:
+                        if "po" in data.get("e", {}) and T.arrive(c, ott) <= tt:
+                            val = data["e"]["po"]
+                    if val is NONE and c.get("init"):
+                        val = init_token(c)
+                    slot[key] = val
+                else:
+                    due = [(pk, data["e"]["eo"]) for (pk, ptt, ott, data) in self.outs[p]
+                           if "eo" in data.get("e", {}) and T.arrive(c, ott) <= tt
+                           and pk not in consumed[ci]]
+                    if due:
+                        for pk, _ in due:
+                            consumed[ci].add(pk)
+                        slot[key] = due[-1][1]
+            g2, e2 = _reconcile(got, exp)
+            if g2 != e2:
+                groups = collections.defaultdict(list)
+                for (a, key, gv, xv) in _entry_diffs(g2, e2):
+                    groups[self._explain(sid, tt, a, key, gv, xv, delivered)].append((a, key, gv, xv))
+                for cls, entries in groups.items():
+                    self.viol.append(dict(
+                        prop="C03", kind="wrong-inputs", cls=cls, sim=sid, at=at,
+                        msg=f"{sid}@{tt} inputs {_short(g2)} expected {_short(e2)}"
+                            + (f" (entries {[(a, k) for a, k, _, _ in entries]})" if len(groups) > 1 else ""),
+                        got=g2, exp=e2))
+            for e, av in got.items():
+                for a, kv in av.items():
+                    for key, v in kv.items():
+                        delivered[(sid, a, key)].append((tt, v))
+
+    def _reply_of(self, token):
+        """(producer, step index) of a provenance token like 'A3' or 'A3e'"""
+        if not isinstance(token, str):
+            return None
+        t = token[:-1] if token.endswith("e") else token
+        for p in self.T.sims:
+            if t.startswith(p) and t[len(p):].isdigit():
+                return p, int(t[len(p):])
+        return None
+
+    def _explain(self, sid, tt, attr, key, gv, xv, delivered):
+        """root-cause classifier of one deviating input entry (None = unexplained)"""
+        T = self.T
+        p = key.split(".")[0]
+        conns = [c for c in T.conns if c["dst"] == sid and c["src"] == p and c.get("dattr") == attr]
+        # F6: the value received stems from a reply that is visible in integer time but not yet
+        # due in tiered time (a later sub-step of the same time step) ...
+        rg = self._reply_of(gv)
+        if rg and rg[0] == p and conns:
+            for (pk, ptt, ott, data) in self.outs[p]:
+                if pk == rg[1]:
+                    if any(T.arrive(c, ott)[0] <= tt[0] and T.arrive(c, ott) > tt for c in conns):
+                        return "integer-time-visibility"
+        # ... or the event that is due now was already delivered prematurely for that reason
+        if gv is None or gv == NONE or rg is None:
+            rx = self._reply_of(xv)
+            if rx and rx[0] == p:
+                for (t0, v0) in delivered.get((sid, attr, key), []):
+                    if v0 == xv and t0[0] == tt[0] and t0 < tt:
+                        return "integer-time-visibility"
+        # F14: initial data declared on another connection from the same source attribute
+        if self.cfg.get("cache", True) and conns and not any(c.get("init") for c in conns) \
+                and (xv is None or xv == NONE):
+            others = [c for c in T.conns if c["src"] == p and c.get("sattr") == conns[0]["sattr"]
+                      and c.get("init") and c not in conns]
+            if others and gv == init_token(others[0]):
+                return "initial-data-shared-via-cache"
+        return None
 
     def _only_foreign_init(self, sid, got, exp):
         """classifier of F14: every deviating entry is the initial data that was declared on a
@@ -394,6 +431,7 @@ class Monitor:
 
     def finish(self, result):
         T = self.T
+        self.judge_inputs()
         exp_loop = self.expected_loop_error()
         if result[0] == "ok":
             for sid in T.sims:
@@ -476,6 +514,18 @@ def _reconcile(got, exp):
                         if kf in g.get(e, {}).get(a, {}):
                             g[e][a].pop(kf)
     return _norm(g), _norm(x)
+
+
+def _entry_diffs(got, exp):
+    out = []
+    for e in sorted(set(got) | set(exp)):
+        for a in sorted(set(got.get(e, {})) | set(exp.get(e, {}))):
+            gk, xk = got.get(e, {}).get(a, {}), exp.get(e, {}).get(a, {})
+            for key in sorted(set(gk) | set(xk)):
+                if key in gk and key in xk and gk[key] == xk[key]:
+                    continue
+                out.append((a, key, gk.get(key, NONE), xk.get(key, NONE)))
+    return out
 
 
 def _short(d):
